@@ -94,7 +94,7 @@ def CueTextTokenizer(cue_text: str):
     start_tag_class = 6
     end_tag = 7
     ts_tag = 8
-    annot_cref = 3
+    annot_cref = 9
 
   cue_text: str = cue_text
   position: int = 0
@@ -202,7 +202,7 @@ def CueTextTokenizer(cue_text: str):
 
         if c == ord("&"):
           state = _State.annot_cref
-          buffer = StringBuf("&")
+          cref = StringBuf("&")
         elif c in (ord(">"), EOF_MARKER):
           if c == ord(">"):
             position += 1
@@ -214,19 +214,19 @@ def CueTextTokenizer(cue_text: str):
 
       elif state is _State.annot_cref:
         if c == ord(";"):
-          coded_entity = str(buffer)
+          coded_entity = str(cref)
           decoded_entity = html.unescape(coded_entity)
           if decoded_entity == coded_entity:
-            result.extend(buffer)
+            buffer.extend(cref)
           else:
-            result.append(decoded_entity)
+            buffer.append(decoded_entity)
           state = _State.start_tag_annot
         elif c in (EOF_MARKER, ord(">")):
-          result.extend(buffer)
+          buffer.extend(cref)
           state = _State.start_tag_annot
           continue
         else:
-          buffer.append(chr(c))
+          cref.append(chr(c))
 
       elif state is _State.end_tag:
         if c in (ord(">"), EOF_MARKER):
